@@ -440,6 +440,11 @@ def run(res, tier, lean, proof_breaks=(), build_log=""):
         ("restart", {"lifetimes": [None] * 4, "kill_delay": 3, "threads": [[("start",), ("sleep", 2), ("stop",)], [("sleep", 2), ("event",)]]}),
         ("restart", {"lifetimes": [None] * 4, "kill_delay": 3, "threads": [[("start",), ("sleep", 3), ("stop",)], [("sleep", 2), ("event",)]]}),
         ("restart", {"lifetimes": [None] * 4, "kill_delay": 12, "threads": [[("start",), ("sleep", 3), ("stop",)], [("sleep", 2), ("event",)]]}),
+        # start() after stop(), start() racing stop(), start() twice: no helper thread may outlive the stop() that did the work
+        ("restart", {"lifetimes": [None] * 4, "debounce": 2, "threads": [[("start",), ("sleep", 2), ("stop",), ("start",), ("sleep", 6)]]}),
+        ("restart", {"lifetimes": [None] * 4, "debounce": 2, "threads": [[("start",), ("sleep", 4)], [("stop",)]]}),
+        ("restart", {"lifetimes": [None] * 4, "debounce": 2, "threads": [[("start",), ("start",), ("sleep", 2), ("stop",), ("sleep", 6)]]}),
+        ("restart", {"lifetimes": [None] * 4, "threads": [[("start",), ("sleep", 4)], [("stop",)], [("event",)]]}),
         ("shell", {"lifetimes": [3, 3, 3], "wait": True, "threads": [[("event",), ("event",), ("sleep", 1), ("event",)]]}),
         ("shell", {"lifetimes": [4, 4, 4], "wait": True, "drop": True,
                    "threads": [[("event",), ("event",)], [("sleep", 1), ("event",), ("sleep", 1), ("event",)]]}),
